@@ -38,7 +38,7 @@ def extract(g, X):
         keys = {f: k for f, k, _, _ in res_fields()}
         out = []
         # arms  Op::V { ref name .. } => { … resources.F.contains_key(name) … old_resources.F.get(name) … resources.F.insert(name.clone(), x.deep_clone(cloner)?) … }
-        for m in re.finditer(r"Op::(\w+)\s*\{\s*ref\s+name[^}]*\}\s*=>\s*\{", b):
+        for m in re.finditer(r"Op::(\w+)\s*\{\s*(?:ref\s+)?name\b[^}]*\}\s*=>\s*\{", b):
             start = m.end() - 1
             arm = X.item_body(b[start:], r"\{", "arm " + m.group(1))
             c = re.search(r"if\s*!\s*resources\.(\w+)\.contains_key\(\s*name\s*\)", arm)
@@ -55,7 +55,7 @@ def extract(g, X):
             out.append((m.group(1), keys[c.group(1)]))
         if not out:
             raise ValueError("no resource arms")
-        if not re.search(r"ref\s+op\s*=>\s*Ok\(op\.clone\(\)\)", b):
+        if not re.search(r"(?:ref\s+)?\b(\w+)\s*=>\s*Ok\(\s*\1\.clone\(\)\s*\)", b):
             raise ValueError("default arm is not `ref op => Ok(op.clone())`")
         return "[" + "; ".join("(%s, %s)" % (bl(v), bl(k)) for v, k in X.ordered_by_key(out)) + "]"
     g.attempt([("import_op_cats", "list (list N * list N)")], "content.rs:deep_clone_op", op_cats)
@@ -63,7 +63,7 @@ def extract(g, X):
     def props_arms():
         b = X.fn_body(co, "deep_clone_op")
         out = []
-        for m in re.finditer(r"Op::(\w+)\s*\{\s*ref\s+tag\s*,\s*ref\s+properties\s*\}\s*=>\s*\{\s*Ok\(Op::(\w+)\s*\{\s*tag:\s*tag\.clone\(\)\s*,\s*properties:\s*properties\.deep_clone\(cloner\)\?\s*\}\)", b):
+        for m in re.finditer(r"Op::(\w+)\s*\{\s*(?:ref\s+)?tag\s*,\s*(?:ref\s+)?properties\s*\}\s*=>\s*\{\s*Ok\(Op::(\w+)\s*\{\s*tag:\s*tag\.clone\(\)\s*,\s*properties:\s*properties\.deep_clone\(cloner\)\?\s*\}\)", b):
             if m.group(1) != m.group(2):
                 raise ValueError("marked-content arm returns another operation")
             out.append(m.group(1))
